@@ -156,7 +156,47 @@ def magnitude_stream(ctx):
             ctx.oracle_failure({'stream': 'magnitudes', 'values_Jy': vals.tolist()}, fails[:3])
 
 
+def statistic_flux_stream(ctx):
+    """The flux as the catalog reaches it: PPStatistic / PPVStatistic.flux on pixel values of any floating width, with
+    data_unit given as a unit or as a scaled quantity (mJy written as 0.001 Jy).  Expected: the double-precision sum
+    of exactly these pixel values times the physical size of one data unit in Jy."""
+    import warnings
+    from fractions import Fraction
+    from astrodendro.analysis import ScalarStatistic, PPStatistic, PPVStatistic
+    rng = ctx.rng('c13-stat')
+    for it in range(60 if ctx.quick else 600):
+        n = rng.randint(3, 40)
+        dt = rng.choice(['float64', 'float32', 'float32', 'float16'])
+        raw = [rng.choice([1, 3, 5, 9, 11, 13]) / 7.0 * rng.choice([1, 1, 64, 4096 if dt != 'float16' else 8]) for _ in range(n)]
+        vals = np.array(raw).astype(dt)
+        exact = float(sum(Fraction(float(x)) for x in vals))          # the pixel values as stored, added exactly
+        ppv = rng.random() < 0.5
+        idx = tuple(np.array([rng.randint(0, 5) for _ in range(n)]) for _ in range(3 if ppv else 2))
+        du, per_unit, dtext = rng.choice([(u.Jy, 1.0, 'Jy'), (u.mJy, 1e-3, 'mJy'), (0.001 * u.Jy, 1e-3, '0.001 Jy (a quantity)'),
+                                          (2.5 * u.mJy, 2.5e-3, '2.5 mJy (a quantity)'), (1e3 * u.uJy, 1e-3, '1000 uJy (a quantity)')])
+        info = {'stream': 'statistic flux', 'dtype': dt, 'values': [float(x) for x in vals], 'data_unit': dtext, 'ppv': ppv}
+        fails = []
+        try:
+            with warnings.catch_warnings():
+                warnings.simplefilter('ignore')
+                st = (PPVStatistic if ppv else PPStatistic)(ScalarStatistic(vals, idx), {'data_unit': du})
+                fl = st.flux
+            got = float(fl.to(u.Jy).value)
+            want = exact * per_unit
+            if str(fl.unit) != 'Jy':
+                fails.append('flux is expressed in %s, not Jy' % fl.unit)
+            if abs(got - want) > 1e-12 * abs(want):
+                fails.append('%s pixels in units of %s: flux %r Jy, the pixel values sum to %r Jy' % (dt, dtext, got, want))
+        except Exception as e:
+            fails.append('flux raised %r' % (e,))
+        ctx.count('statistic_flux=%s' % dt)
+        ctx.case_done(None, ('statflux', it))
+        if fails:
+            ctx.oracle_failure(info, fails)
+
+
 def explore(ctx):
+    statistic_flux_stream(ctx)
     magnitude_stream(ctx)
     rng = ctx.rng('c13')
     terms, expect = [], []
